@@ -3,6 +3,50 @@
 use std::collections::BTreeMap;
 use std::fmt::Write as _;
 use std::io::Write as _;
+use std::sync::atomic::{AtomicU64, Ordering};
+use std::sync::Mutex;
+
+// ---------- watchdog: a call of the implementation that never returns ----------
+// The harnesses run the contracts natively with an unlimited host budget, so a change that makes a loop of
+// the code under test non-terminating (on chain: budget exhaustion, i.e. the call fails) would hang the
+// harness. A watchdog thread measures the CPU time this process burns between two progress marks
+// (`Out::case/label/trace`, `tick()`); CPU time, not wall-clock, so a loaded machine cannot trip it. When
+// the limit is exceeded it reports where the run stood and exits with code 86; `check` reports a harness
+// that aborts while driving the implementation as `VIOLATION ... no-failing-input-found`.
+static PROGRESS: AtomicU64 = AtomicU64::new(0);
+static MAX_GAP_MS: AtomicU64 = AtomicU64::new(0);
+static LAST_MARK: Mutex<String> = Mutex::new(String::new());
+pub fn tick() { PROGRESS.fetch_add(1, Ordering::Relaxed); }
+fn mark(s: &str) { tick(); if let Ok(mut g) = LAST_MARK.try_lock() { g.clear(); g.extend(s.chars().take(300)); } }
+fn cpu_ms() -> u64 {
+    // utime + stime of this process from /proc/self/stat (clock ticks of 10 ms)
+    let st = std::fs::read_to_string("/proc/self/stat").unwrap_or_default();
+    let rest = st.rsplit(')').next().unwrap_or("");
+    let f: Vec<&str> = rest.split_whitespace().collect();
+    if f.len() > 12 { (f[11].parse::<u64>().unwrap_or(0) + f[12].parse::<u64>().unwrap_or(0)) * 10 } else { 0 }
+}
+fn start_watchdog() {
+    static STARTED: AtomicU64 = AtomicU64::new(0);
+    if STARTED.swap(1, Ordering::SeqCst) != 0 { return; }
+    let limit_ms = std::env::var("VERIF_HANG_CPU_S").ok().and_then(|s| s.parse::<u64>().ok()).unwrap_or(240) * 1000;
+    std::thread::spawn(move || {
+        let (mut seen, mut cpu_at) = (PROGRESS.load(Ordering::Relaxed), cpu_ms());
+        loop {
+            std::thread::sleep(std::time::Duration::from_millis(1000));
+            let (p, c) = (PROGRESS.load(Ordering::Relaxed), cpu_ms());
+            let gap = c.saturating_sub(cpu_at);
+            if gap > MAX_GAP_MS.load(Ordering::Relaxed) { MAX_GAP_MS.store(gap, Ordering::Relaxed); }
+            if p != seen { seen = p; cpu_at = c; continue; }
+            if gap > limit_ms {
+                let last = LAST_MARK.lock().map(|g| g.clone()).unwrap_or_default();
+                eprintln!("WATCHDOG: the implementation did not return: {} s of CPU time without completing a call \
+                           (VERIF_SEED={:?} VERIF_TIER={:?}); progress marks so far: {}; last completed step: {}",
+                          gap / 1000, std::env::var("VERIF_SEED").ok(), std::env::var("VERIF_TIER").ok(), p, last);
+                std::process::exit(86);
+            }
+        }
+    });
+}
 
 /// SplitMix64: every random choice of a run derives from one state seeded by VERIF_SEED.
 #[derive(Clone)]
@@ -85,19 +129,22 @@ pub struct Out {
 }
 impl Out {
     pub fn new(header: &str, check_fn: &str) -> Self {
+        start_watchdog();
         Out { cfg: cfg(), header: header.into(), check_fn: check_fn.into(), traces: vec![], labels: BTreeMap::new(),
               samples: vec![], per_shard_calls: 1500, calls: 0, distinct: Default::default() }
     }
     pub fn per_shard(&mut self, n: usize) { self.per_shard_calls = n; }
     /// record one executed case: histogram label + distinctness of the case text
     pub fn case(&mut self, label: &str, text: &str) {
+        mark(label);
         self.label(label);
         let mut h: u64 = 0xcbf29ce484222325;
         for b in text.as_bytes() { h ^= *b as u64; h = h.wrapping_mul(0x100000001b3); }
         self.distinct.insert(h);
     }
-    pub fn label(&mut self, l: &str) { *self.labels.entry(l.to_string()).or_insert(0) += 1; }
+    pub fn label(&mut self, l: &str) { tick(); *self.labels.entry(l.to_string()).or_insert(0) += 1; }
     pub fn trace(&mut self, desc: &str, term: String, ncalls: usize) {
+        mark(&format!("trace #{} ({})", self.traces.len(), desc));
         self.calls += ncalls as u64;
         if self.samples.len() < 4 && ncalls > 0 { let mut t = term.clone(); if t.len() > 1500 { t.truncate(1500); t.push_str(" ..."); } self.samples.push(format!("{}: {}", desc, t)); }
         self.traces.push((desc.to_string(), term, ncalls));
@@ -129,8 +176,9 @@ impl Out {
         // meta.json (hand-written JSON; strings escaped)
         let esc = |s: &str| s.replace('\\', "\\\\").replace('"', "\\\"").replace('\n', " ");
         let mut m = String::from("{");
-        write!(m, "\"seed\": {}, \"tier\": \"{}\", \"traces\": {}, \"calls\": {}, \"distinct\": {}, \"labels\": {{", self.cfg.seed,
-               if self.cfg.thorough { "thorough" } else { "quick" }, self.traces.len(), self.calls, self.distinct.len()).unwrap();
+        write!(m, "\"seed\": {}, \"tier\": \"{}\", \"traces\": {}, \"calls\": {}, \"distinct\": {}, \"max_cpu_gap_ms\": {}, \"labels\": {{", self.cfg.seed,
+               if self.cfg.thorough { "thorough" } else { "quick" }, self.traces.len(), self.calls, self.distinct.len(),
+               MAX_GAP_MS.load(Ordering::Relaxed)).unwrap();
         for (i, (k, v)) in self.labels.iter().enumerate() { if i > 0 { m.push_str(", "); } write!(m, "\"{}\": {}", esc(k), v).unwrap(); }
         m.push_str("}, \"samples\": [");
         for (i, s) in self.samples.iter().enumerate() { if i > 0 { m.push_str(", "); } write!(m, "\"{}\"", esc(s)).unwrap(); }
